@@ -263,6 +263,15 @@ class FnTaint:
                     if e in outs:
                         outs[e] -= (ta | tb)
             return
+        # `(lo..hi).contains(&x)` / `(lo..=hi)` / `(..hi)` with bounds that are not caller-supplied: x is bounded on the true edge
+        if c[0] == 'call' and isinstance(c[1], str) and re.search(r'ops::(RangeInclusive|Range|RangeTo|RangeToInclusive)::<[^>]*>::contains(::<[^>]*>)?$', c[1]) \
+                and len(c[2]) == 2 and len(t['targets']) == 1 and len(zero) == 1:
+            tr, tx = self.tainted_in(c[2][0], state), self.tainted_in(c[2][1], state)
+            if tx and not tr:
+                e_true = t['otherwise'] if not neg else zero[0]
+                if e_true in outs:
+                    outs[e_true] -= tx | self.bounded_with(tx, state)
+            return
         # success edge of a validating call: bool result or discriminant of Try::branch(result)
         call = None
         ok_vals = None
